@@ -726,3 +726,103 @@ def c09_i(ctx):
                       .format(src(d)[:60], v, bad[0].lineno if bad else 0), fn=f, node=d)
     if n < 1:
         ctx.undecided('expected at least one division by a counter in the samplers')
+
+
+@obligation('C09-j', 'T7 T3', 'callers hand the kernels their arguments by role: proposal scales in '
+            'parameter order, the warm-up length as the adaptation length, the chain\'s own '
+            'sub-seed', floor=6,
+            necessary='scales in dict order apply one parameter\'s step to another; a chain '
+                      'adapted for another length than the prefix that is dropped is not a chain '
+                      'of a fixed kernel after warm-up')
+def c09_j(ctx):
+    rs = ctx.fn('elfi.methods.utils:resolve_sigmas')
+    ex = ctx.ex(rs)
+    # dict input is re-ordered by parameter_names
+    sts = [s for s in own_nodes(rs.node) if isinstance(s, ast.Assign) and
+           isinstance(s.targets[0], ast.Name) and s.targets[0].id == rs.params[1]]
+    okd = False
+    for s in sts:
+        gs = ctx.guards(rs, s)
+        if any(pol and match(t, pattern('isinstance({}, dict)'.format(rs.params[1]))) is not None
+               for (t, pol, _) in gs):
+            v = ex.raw(s.value)
+            if v[0] == 'comp' and v[1] == 'list':
+                body, gens = v[2], v[3]
+                okd = len(gens) == 1 and gens[0][0] in (('name', rs.params[0]),
+                                                       ('param', rs.params[0])) and \
+                    body[0] == 'sub' and body[1] in (('name', rs.params[1]),
+                                                     ('param', rs.params[1]))
+    ctx.check(okd, rs, 'dict of scales read in parameter_names order',
+              '[sigma_proposals[x] for x in parameter_names]',
+              'a dict of proposal scales is not turned into a list in parameter_names order (dict '
+              'insertion order gives one parameter another parameter\'s scale)', fn=rs,
+              node=sts[0] if sts else rs.node)
+    # default: a tenth of each bound interval, in the order of the bounds
+    okb = False
+    for l in own_nodes(rs.node):
+        if isinstance(l, ast.For) and ex.raw(l.iter) in (('name', rs.params[2]),
+                                                         ('param', rs.params[2])):
+            for c in ast.walk(l):
+                if isinstance(c, ast.Call) and isinstance(c.func, ast.Attribute) and \
+                        c.func.attr == 'append':
+                    okb = True
+    ctx.check(okb, rs, 'default scales follow the bounds', 'one scale per bound, in order', '',
+              fn=rs, node=rs.node)
+    # call sites of the kernels outside mcmc.py
+    nuts_f, met_f = ctx.fn(M + ':nuts'), ctx.fn(M + ':metropolis')
+    n_sites = 0
+    for m in ctx.repo.modules.values():
+        if not m.name.startswith('elfi.methods') or m.name == M:
+            continue
+        for f in m.all_functions:
+            if getattr(f, 'node', None) is None or isinstance(f.node, ast.Lambda):
+                continue
+            exf = ctx.ex(f)
+            for c in ctx.calls(f):
+                a = [exf.term(x) for x in c.args]
+                kw = dict((k.arg, exf.term(k.value)) for k in c.keywords)
+                target = None
+                args = a
+                if a and a[0] == ('global', M.replace(':', '.') + '.nuts') or \
+                        (a and a[0] == ('global', 'elfi.methods.mcmc.nuts')):
+                    target, args = 'nuts', a[1:]          # client.apply(mcmc.nuts, ...)
+                elif a and a[0] == ('global', 'elfi.methods.mcmc.metropolis'):
+                    target, args = 'metropolis', a[1:]
+                elif exf.term(c.func) == ('global', 'elfi.methods.mcmc.nuts'):
+                    target = 'nuts'
+                elif exf.term(c.func) == ('global', 'elfi.methods.mcmc.metropolis'):
+                    target = 'metropolis'
+                if target is None:
+                    continue
+                n_sites += 1
+                # a function that removes a warm-up prefix of its own choosing must adapt /
+                # discard for exactly that length
+                wu = [p for p in f.all_params if p == 'warmup']
+                uses_wu = 'warmup' in [x.id for x in ast.walk(f.node) if isinstance(x, ast.Name)]
+                if target == 'nuts' and uses_wu:
+                    na = kw.get('n_adapt', args[4] if len(args) > 4 else None)
+                    okn = na is not None and (('name', 'warmup') in set(subterms(na)) or
+                                              ('param', 'warmup') in set(subterms(na)) or
+                                              contains(na, 'warmup'))
+                    ctx.check(okn, f, 'NUTS adapts for exactly the warm-up length',
+                              'n_adapt=warmup',
+                              '{} passes n_adapt={} to nuts although it treats `warmup` states as '
+                              'warm-up: with a non-default warm-up the kept states are still '
+                              'adapting'.format(f.name, show(na)[:30] if na else 'nothing (default '
+                                                'n_iter // 2)'), fn=f, node=c)
+                if target == 'metropolis':
+                    sg = args[3] if len(args) > 3 else kw.get('sigma_proposals')
+                    oksg = sg is not None and (
+                        contains(sg, 'resolve_sigmas(*_)') or
+                        sg in (pattern_term('self._sigma_proposals'),) or
+                        contains(sg, 'sigma_proposals'))
+                    ctx.check(oksg, f, 'Metropolis receives the resolved scales',
+                              'sigma_proposals from resolve_sigmas',
+                              'metropolis is not given the proposal scales resolved in parameter '
+                              'order', fn=f, node=c)
+                sd_ = kw.get('seed')
+                ctx.check(sd_ is not None, f, 'kernel is seeded by the caller', 'seed=...',
+                          '{} calls {} without a seed (the default seed 0 is shared by all '
+                          'chains)'.format(f.name, target), fn=f, node=c)
+    if n_sites < 4:
+        ctx.undecided('expected >= 4 call sites of the kernels, found {}'.format(n_sites))
